@@ -137,7 +137,7 @@ fn more_family<
             }
             out.push(inst(
                 format!("heldSx2:{}:{}", path, m),
-                &["C01", "C02", "C03", "C07", "C10"],
+                &["C01", "C02", "C03", "C04", "C07", "C10"],
                 mode,
                 3,
                 "R holds S guards, then {load, deref, release, into_inner} || W{store, store}",
@@ -365,17 +365,23 @@ fn more_family<
             move || h_more::wrap_claim::<S>(fill),
         ));
         if mode == Fresh {
-            for two in [false, true] {
-                if two && path != "nofast" {
+            for kind in 0..3u8 {
+                // 0: S loads twice; 1: S works on a container of its own; 2: S does a compare_and_swap
+                let (two, with_cas) = (kind == 1, kind == 2);
+                if kind != 0 && path != "nofast" {
                     continue;
                 }
                 let mut x = inst(
-                    format!("churn_help{}:{}", if two { "2" } else { "" }, path),
-                    if two { &["C12", "C11"] } else { &["C11", "C03"] },
+                    format!("churn_help{}:{}", ["", "2", "_cas"][kind as usize], path),
+                    match kind {
+                        0 => &["C11", "C03"],
+                        1 => &["C12", "C11"],
+                        _ => &["C05", "C11"],
+                    },
                     mode,
                     4,
-                    "T{load, exit} || W{store} || S{first use of the crate inside the race: store, load, load} (churn_help2: S on a container of its own), 3 preemptions",
-                    move || h_more::churn_help::<S>(fill, two),
+                    "T{load, exit} || W{store} || S{first use of the crate inside the race: store, load, load} (churn_help2: S on a container of its own; churn_help_cas: S{store, load_full, compare_and_swap}), 3 preemptions",
+                    move || h_more::churn_help::<S>(fill, two, with_cas),
                 );
                 x.k = 0;
                 x.p_with_k = Some(3);
@@ -383,7 +389,7 @@ fn more_family<
                 // in which every load is a helping transaction)
                 x.thorough_only = path != "nofast";
                 // `check_cooldown` must not act on a stale count of writers (seeded C11-2)
-                if !two {
+                if kind == 0 {
                     x.m3l_stale = Some(1);
                 }
                 out.push(x);
@@ -413,7 +419,7 @@ fn more_family<
             for ww in [false, true] {
                 out.push(inst(
                     format!("guard_life{}{}:{}", gname(g), if ww { "w" } else { "" }, path),
-                    &["C01", "C02", "C07", "C10", "C11", "C13"],
+                    &["C01", "C02", "C07", "C08", "C10", "C11", "C13"],
                     Fresh,
                     if ww { 4 } else { 3 },
                     "T1 takes g guards and exits; T2 uses/drops them || T3 starts, claims the node, loads twice (|| W stores)",
@@ -439,7 +445,7 @@ fn more_family<
         ));
         out.push(inst(
             format!("churn_par:{}", path),
-            &["C01", "C02", "C11", "C13"],
+            &["C01", "C02", "C08", "C09", "C11", "C13"],
             Fresh,
             3,
             "T1{load, exit} || T2{first use: load_full} || W{store}",
@@ -457,11 +463,19 @@ fn more_family<
         }
         out.push(inst(
             format!("churn_two:{}", path),
-            &["C01", "C02", "C10", "C11", "C13"],
+            &["C01", "C02", "C08", "C09", "C10", "C11", "C13"],
             Fresh,
             3,
             "T0{load, exit} done; X{first use: load, drop} || Y{first use: load, drop} || W{store}",
-            move || h_more::churn_two::<S>(),
+            move || h_more::churn_two::<S>(false),
+        ));
+        out.push(inst(
+            format!("churn_two_rcu:{}", path),
+            &["C06", "C11"],
+            Fresh,
+            3,
+            "T0{load, exit} done; X{first use: rcu} || Y{first use: rcu} || W{rcu}",
+            move || h_more::churn_two::<S>(true),
         ));
         for ww in [false, true] {
             out.push(inst(
